@@ -24,7 +24,7 @@ from .. import core, par
 MANIFEST = dict(
     text="Proof: Lean theorems campaign_rowwise / trigger_rowwise (an accepted sheet of any length yields exactly one event / trigger per row, in order, with the stated fields), campaign_accepted_iff / trigger_accepted_iff (accepted exactly when every row is valid; corollaries *_invalid_rejected and *_valid_accepted for every enum, message events without text, keyword triggers without keyword), field_key_spec, over a line-by-line hand model of CampaignParser / CampaignEvent / TriggerParser / Trigger / the pydantic validators / generate_field_key; tied to the code by a differential run of generated content indexes (0..8 rows per sheet, every enum value valid and invalid, optional columns present/absent, shared groups and flows) through the real ContentIndexParser and by T1 constants regenerated from the source; reference resolution (one name, one uuid, equal to the flow's) is checked directly on every real output, not proved.",
     ref="§5 C19",
-    note="Trusts: Lean kernel (axioms audited each run), the differential harness and Driver JSON codec, CPython int()/str.strip/lower on ASCII as modelled, pydantic v1 validator semantics as modelled (exercised by the tie). Not proved: UUID-dictionary resolution (C06's model; oracle-checked here). Known findings: F-C19-a (message always keyed 'eng'), F-C06-b (trigger for an only-referenced flow accepted).",
+    note="Trusts: Lean kernel (axioms audited each run), the differential harness and Driver JSON codec, CPython int()/str.strip/lower on ASCII as modelled, pydantic v1 validator semantics as modelled (exercised by the tie). Not proved: UUID-dictionary resolution (C06's model; oracle-checked here). Known finding: F-C06-b (F-C19-a, message always keyed 'eng', was fixed in /repo) (trigger for an only-referenced flow accepted).",
     technique="Lean 4 proof (induction over the row loop; row-level iff characterisations) + generated model/code correspondence + direct oracle",
 )
 
